@@ -60,6 +60,13 @@ pub const USES: &[(&str, &str, &str)] = &[
     ("math", "local _u = math\n  .nope", "trivia-root-no-field"),
     ("oldvalue", "local _u = (oldvalue)", "paren-deprecated-expression"),
     ("lib", "local _u = (lib).oldfield", "paren-root-deprecated-field"),
+    // uses inside the table constructor of a call written without parentheses, and inside string-call chains
+    ("math", "f { math.nope }", "table-call-no-field"),
+    ("math", "local _u = f { x = math.nope, [math.nope2] = 1 }", "table-call-keyed-no-field"),
+    ("table", "t:m { table.getn }", "table-call-method-deprecated"),
+    ("math", "local _u = f { { math.floor(\"x\") } }", "table-call-nested-type"),
+    ("string", "f { string.nope } { string.nope2 }", "table-call-chain-no-field"),
+    ("math", "f \"s\" { math.nope }", "string-then-table-call"),
 ];
 
 /// binding constructs: (name, text before the inside use, text after it) — `{R}` is the bound name
